@@ -73,8 +73,13 @@ class Domain:
         return None
 
 
+RAISED = ("c", "@raise")
+
+
 class Interp:
-    def __init__(self, prog, domain, max_depth=5, follow=None):
+    def __init__(self, prog, domain, max_depth=5, follow=None, single_exit=False, raise_leaf=False):
+        self.raise_leaf = raise_leaf      # with single_exit: a path that raises yields the value RAISED instead of vanishing
+        self.single_exit = single_exit    # early returns become else-branches: returned values keep their path conditions
         self.prog = prog
         self.d = domain
         self.max_depth = max_depth
@@ -105,7 +110,22 @@ class Interp:
         env["@top"] = top
         if (state or {}):
             env.update({"self." + k: v for k, v in state.items()})
-        done = self._block(fi.node.body, env, rets)
+        body = fi.node.body
+        if self.single_exit:
+            from .inline import _single_exit, _returns_outside_nested
+            if len(_returns_outside_nested(fi.node)) > 1 or (self.raise_leaf and any(isinstance(x, ast.Raise) for x in ast.walk(fi.node))):
+                conv = _single_exit(list(body), lambda e: [ast.Assign(targets=[ast.Name(id="__ret__", ctx=ast.Store())],
+                                                                       value=e if e is not None else ast.Constant(value=None))],
+                                    (lambda st: [ast.Assign(targets=[ast.Name(id="__ret__", ctx=ast.Store())],
+                                                            value=ast.Constant(value="@raise"))]) if self.raise_leaf else None)
+                if conv is not None:
+                    body = conv
+        done = self._block(body, env, rets)
+        if "__ret__" in env and not rets:
+            rets.append(env["__ret__"])
+            if top:
+                self.exits.append((env["__ret__"], {k: v for k, v in env.items() if k.startswith("self.")}))
+            done = True
         if top and not done:
             self.exits.append((None, {k: v for k, v in env.items() if k.startswith("self.")}))
         if depth > 0 and self._callee_state is not None:
@@ -610,6 +630,19 @@ def cond_value(c, atom_truth):
         if c[0] == "c":
             return bool(c[1])
     return None
+
+
+def term_resolve(t, atom_truth, _depth=0):
+    """the term with every conditional whose condition is decided by `atom_truth` replaced by the selected arm"""
+    if _depth > 60 or not isinstance(t, (tuple, Seq)):
+        return t
+    if isinstance(t, tuple) and len(t) == 4 and t[0] == "ite":
+        v = cond_value(t[1], atom_truth)
+        if v is not None:
+            return term_resolve(t[2] if v else t[3], atom_truth, _depth + 1)
+    if isinstance(t, Seq):
+        return Seq(term_resolve(x, atom_truth, _depth + 1) for x in t)
+    return tuple(term_resolve(x, atom_truth, _depth + 1) if isinstance(x, (tuple, Seq)) else x for x in t)
 
 
 def term_select(t, atom_truth):
